@@ -597,3 +597,219 @@ Proof.
       apply (path_cons _ 1 2 0); [left; reflexivity|].
       apply path_one. left. reflexivity.
 Qed.
+
+(* ------------------------------------------------------------------ the Sorter as a reusable object *)
+(* the deferred reset: whatever happened during a use - it completed, the consumer stopped it after
+   any number of elements, it panicked - the Sorter is back in its initial state *)
+Lemma sorter_state_reset_after_any_prefix_lemma : forall s g roots lim,
+  snd (sorter_use s g roots lim) = sorter_init.
+Proof. intros. reflexivity. Qed.
+
+Lemma sorter_history_fresh_lemma : forall g uses,
+  sorter_history sorter_init g uses
+  = map (fun u : list nat * option nat => fst (sorter_use sorter_init g (fst u) (snd u))) uses.
+Proof.
+  intros g uses. induction uses as [|[roots lim] r IH]; [reflexivity|].
+  cbn [sorter_history map fst snd]. unfold sorter_use at 1. cbn [fst snd]. rewrite IH. reflexivity.
+Qed.
+
+(* the loop with an unlimited consumer is the loop of the plain model *)
+Lemma loop_lim_none g : forall fuel m stack out,
+  match loop fuel g m stack out with
+  | LDone m' o => loop_lim fuel g m stack out None = LLDone m' o None
+  | LPanic s v => loop_lim fuel g m stack out None = LLPanic out s v \/ exists o, loop_lim fuel g m stack out None = LLPanic o s v
+  | LOutOfFuel => loop_lim fuel g m stack out None = LLOutOfFuel
+  end.
+Proof.
+  induction fuel as [|f IH]; intros m stack out; cbn [loop loop_lim]; [reflexivity|].
+  destruct stack as [|node rest]; [reflexivity|].
+  destruct (m node).
+  - destruct (push_all (set_mark m node Walking) (node :: rest) (children g node)) as [st'|s v].
+    + specialize (IH (set_mark m node Walking) st' out).
+      destruct (loop f g (set_mark m node Walking) st' out); [exact IH| |exact IH].
+      right. destruct IH as [IH|[o IH]]; eexists; exact IH.
+    + left. reflexivity.
+  - cbn [lim_next]. specialize (IH (set_mark m node Sorted) rest (node :: out)).
+    destruct (loop f g (set_mark m node Sorted) rest (node :: out)); [exact IH| |exact IH].
+    right. destruct IH as [IH|[o IH]]; eexists; exact IH.
+  - specialize (IH m rest out).
+    destruct (loop f g m rest out); [exact IH| |exact IH].
+    right. destruct IH as [IH|[o IH]]; eexists; exact IH.
+Qed.
+
+Lemma sort_roots_lim_none g fuel : forall roots m out,
+  match sort_roots fuel g m out roots with
+  | TOk o => sort_roots_lim fuel g m [] out roots None = UDone o
+  | TPanic s v => exists o, sort_roots_lim fuel g m [] out roots None = UPanic o s v
+  | TOutOfFuel => sort_roots_lim fuel g m [] out roots None = UOutOfFuel
+  end.
+Proof.
+  induction roots as [|r rs IH]; intros m out; cbn [sort_roots sort_roots_lim]; [reflexivity|].
+  destruct (push m [] r) as [st|s v]; [|eexists; reflexivity].
+  pose proof (loop_lim_none g fuel m st out) as H.
+  destruct (loop fuel g m st out) as [m' o'|s v|].
+  - rewrite H. apply IH.
+  - destruct H as [H|[o H]]; rewrite H; eexists; reflexivity.
+  - rewrite H. reflexivity.
+Qed.
+
+Lemma sorter_use_complete_lemma : forall g roots,
+  match sort g roots with
+  | TOk o => fst (sorter_use sorter_init g roots None) = UDone o
+  | TPanic s v => exists o, fst (sorter_use sorter_init g roots None) = UPanic o s v
+  | TOutOfFuel => False
+  end.
+Proof.
+  intros g roots. pose proof (sort_terminates_lemma g roots) as Ht.
+  unfold sorter_use, sorter_init. cbn [fst s_marks s_stack length]. rewrite Nat.mul_0_r, Nat.add_0_r.
+  pose proof (sort_roots_lim_none g (sort_fuel g) roots (fun _ => Unsorted) []) as H. fold (sort g roots) in H.
+  destruct (sort g roots); [exact H|exact H|apply Ht; reflexivity].
+Qed.
+
+(* a consumer that breaks on its k-th element sees the first k elements of the complete iteration *)
+Lemma loop_lim_cut g : forall fuel m stack out k, 1 <= k ->
+  match loop_lim fuel g m stack out None with
+  | LLDone m' o' _ =>
+    exists new, o' = new ++ out /\
+      (if k <=? length new then loop_lim fuel g m stack out (Some k) = LLStopped (skipn (length new - k) new ++ out)
+       else loop_lim fuel g m stack out (Some k) = LLDone m' o' (Some (k - length new)))
+  | LLPanic o' s v =>
+    exists new, o' = new ++ out /\
+      (if k <=? length new then loop_lim fuel g m stack out (Some k) = LLStopped (skipn (length new - k) new ++ out)
+       else loop_lim fuel g m stack out (Some k) = LLPanic o' s v)
+  | _ => True
+  end.
+Proof.
+  induction fuel as [|f IH]; intros m stack out k Hk; cbn [loop_lim]; [exact I|].
+  destruct stack as [|node rest].
+  - exists []. split; [reflexivity|]. cbn [length]. destruct (Nat.leb_spec k 0); [lia|]. rewrite Nat.sub_0_r. reflexivity.
+  - destruct (m node).
+    + destruct (push_all (set_mark m node Walking) (node :: rest) (children g node)) as [st'|s v].
+      * apply IH. exact Hk.
+      * exists []. split; [reflexivity|]. cbn [length]. destruct (Nat.leb_spec k 0); [lia|reflexivity].
+    + cbn [lim_next]. destruct (Nat.leb_spec k 1) as [Hk1|Hk1].
+      * (* the consumer stops on this element *)
+        assert (k = 1) by lia. subst k.
+        destruct (loop_lim f g (set_mark m node Sorted) rest (node :: out) None) as [m' o' l'|o'|o' s v|] eqn:Hfull; try exact I.
+        -- specialize (IH (set_mark m node Sorted) rest (node :: out) 1 Hk). rewrite Hfull in IH.
+           destruct IH as [new [Ho _]]. exists (new ++ [node]). split; [rewrite <- app_assoc; exact Ho|].
+           rewrite app_length. cbn [length]. destruct (Nat.leb_spec 1 (length new + 1)); [|lia].
+           replace (length new + 1 - 1) with (length new) by lia.
+           rewrite skipn_app, skipn_all, Nat.sub_diag. reflexivity.
+        -- specialize (IH (set_mark m node Sorted) rest (node :: out) 1 Hk). rewrite Hfull in IH.
+           destruct IH as [new [Ho _]]. exists (new ++ [node]). split; [rewrite <- app_assoc; exact Ho|].
+           rewrite app_length. cbn [length]. destruct (Nat.leb_spec 1 (length new + 1)); [|lia].
+           replace (length new + 1 - 1) with (length new) by lia.
+           rewrite skipn_app, skipn_all, Nat.sub_diag. reflexivity.
+      * specialize (IH (set_mark m node Sorted) rest (node :: out) (k - 1) ltac:(lia)).
+        destruct (loop_lim f g (set_mark m node Sorted) rest (node :: out) None) as [m' o' l'|o'|o' s v|]; try exact I.
+        -- destruct IH as [new [Ho IH]]. exists (new ++ [node]). split; [rewrite <- app_assoc; exact Ho|].
+           rewrite app_length. cbn [length].
+           destruct (Nat.leb_spec (k - 1) (length new)); destruct (Nat.leb_spec k (length new + 1)); try lia.
+           ++ rewrite IH. f_equal. replace (length new + 1 - k) with (length new - (k - 1)) by lia.
+              rewrite skipn_app. replace (length new - (k - 1) - length new) with 0 by lia. cbn [skipn].
+              rewrite <- app_assoc. reflexivity.
+           ++ rewrite IH. f_equal. f_equal. lia.
+        -- destruct IH as [new [Ho IH]]. exists (new ++ [node]). split; [rewrite <- app_assoc; exact Ho|].
+           rewrite app_length. cbn [length].
+           destruct (Nat.leb_spec (k - 1) (length new)); destruct (Nat.leb_spec k (length new + 1)); try lia.
+           ++ rewrite IH. f_equal. replace (length new + 1 - k) with (length new - (k - 1)) by lia.
+              rewrite skipn_app. replace (length new - (k - 1) - length new) with 0 by lia. cbn [skipn].
+              rewrite <- app_assoc. reflexivity.
+           ++ exact IH.
+    + apply IH. exact Hk.
+Qed.
+
+Lemma loop_lim_none_shape g : forall fuel m stack out,
+  match loop_lim fuel g m stack out None with
+  | LLDone _ _ l => l = None
+  | LLStopped _ => False
+  | _ => True
+  end.
+Proof.
+  induction fuel as [|f IH]; intros m stack out; cbn [loop_lim]; [exact I|].
+  destruct stack as [|node rest]; [reflexivity|].
+  destruct (m node).
+  - destruct (push_all (set_mark m node Walking) (node :: rest) (children g node)); [apply IH|exact I].
+  - cbn [lim_next]. apply IH.
+  - apply IH.
+Qed.
+
+Lemma rev_cut (new out : list nat) k : k <= length new ->
+  rev (skipn (length new - k) new ++ out) = firstn (length out + k) (rev (new ++ out)).
+Proof.
+  intros Hk. rewrite !rev_app_distr. rewrite <- (rev_length out). rewrite firstn_app_2.
+  f_equal. rewrite firstn_rev. reflexivity.
+Qed.
+
+Lemma roots_prefix g fuel : forall roots m stack out,
+  match sort_roots_lim fuel g m stack out roots None with
+  | UDone o => exists tail, o = rev out ++ tail
+  | UPanic o _ _ => exists tail, o = rev out ++ tail
+  | UStopped _ => False
+  | UOutOfFuel => True
+  end.
+Proof.
+  induction roots as [|r rs IH]; intros m stack out; cbn [sort_roots_lim].
+  - exists []. symmetry. apply app_nil_r.
+  - destruct (push m stack r) as [st|s v]; [|exists []; symmetry; apply app_nil_r].
+    pose proof (loop_lim_cut g fuel m st out 1 (le_n 1)) as Hc.
+    pose proof (loop_lim_none_shape g fuel m st out) as Hs.
+    destruct (loop_lim fuel g m st out None) as [m' o' l'|o'|o' s v|]; [|contradiction| |exact I].
+    + subst l'. destruct Hc as [new [Ho _]]. specialize (IH m' [] o').
+      destruct (sort_roots_lim fuel g m' [] o' rs None) as [o|o|o s v|]; try exact IH.
+      * destruct IH as [tail Ht]. subst o'. rewrite rev_app_distr, <- app_assoc in Ht. eexists. exact Ht.
+      * destruct IH as [tail Ht]. subst o'. rewrite rev_app_distr, <- app_assoc in Ht. eexists. exact Ht.
+    + destruct Hc as [new [Ho _]]. subst o'. rewrite rev_app_distr. eexists. reflexivity.
+Qed.
+
+Lemma roots_cut g fuel : forall roots m stack out k, 1 <= k ->
+  sort_roots_lim fuel g m stack out roots None <> UOutOfFuel ->
+  sort_roots_lim fuel g m stack out roots (Some k) = cut (length out + k) (sort_roots_lim fuel g m stack out roots None).
+Proof.
+  induction roots as [|r rs IH]; intros m stack out k Hk Hoof; cbn [sort_roots_lim] in *.
+  - cbn [cut]. rewrite rev_length. destruct (Nat.leb_spec (length out + k) (length out)); [lia|reflexivity].
+  - destruct (push m stack r) as [st|s v].
+    2:{ cbn [cut]. rewrite rev_length. destruct (Nat.leb_spec (length out + k) (length out)); [lia|reflexivity]. }
+    pose proof (loop_lim_cut g fuel m st out k Hk) as Hc.
+    pose proof (loop_lim_none_shape g fuel m st out) as Hs.
+    destruct (loop_lim fuel g m st out None) as [m' o' l'|o'|o' s v|]; [|contradiction| |contradiction].
+    + subst l'. destruct Hc as [new [Ho Hc]].
+      destruct (Nat.leb_spec k (length new)) as [Hle|Hgt].
+      * rewrite Hc. pose proof (roots_prefix g fuel rs m' [] o') as Hp.
+        destruct (sort_roots_lim fuel g m' [] o' rs None) as [o|o|o s v|]; [|contradiction| |contradiction].
+        -- destruct Hp as [tail Ht]. cbn [cut]. subst o o'.
+           rewrite app_length, rev_length, app_length.
+           destruct (Nat.leb_spec (length out + k) (length new + length out + length tail)); [|lia].
+           f_equal. rewrite rev_cut by exact Hle. rewrite firstn_app.
+           rewrite rev_length, app_length. replace (length out + k - (length new + length out)) with 0 by lia.
+           cbn [firstn]. rewrite app_nil_r. reflexivity.
+        -- destruct Hp as [tail Ht]. cbn [cut]. subst o o'.
+           rewrite app_length, rev_length, app_length.
+           destruct (Nat.leb_spec (length out + k) (length new + length out + length tail)); [|lia].
+           f_equal. rewrite rev_cut by exact Hle. rewrite firstn_app.
+           rewrite rev_length, app_length. replace (length out + k - (length new + length out)) with 0 by lia.
+           cbn [firstn]. rewrite app_nil_r. reflexivity.
+      * rewrite Hc. rewrite (IH m' [] o' (k - length new) ltac:(lia) Hoof). f_equal.
+        subst o'. rewrite app_length. lia.
+    + destruct Hc as [new [Ho Hc]]. cbn [cut]. subst o'. rewrite rev_length, app_length. revert Hc.
+      destruct (Nat.leb_spec k (length new)); destruct (Nat.leb_spec (length out + k) (length new + length out)); try lia; intros Hc; rewrite Hc.
+      * f_equal. apply rev_cut. assumption.
+      * reflexivity.
+Qed.
+
+Lemma sorter_use_cut_lemma : forall g roots k, 1 <= k ->
+  fst (sorter_use sorter_init g roots (Some k)) = cut k (fst (sorter_use sorter_init g roots None)).
+Proof.
+  intros g roots k Hk. pose proof (sorter_use_complete_lemma g roots) as Hfull.
+  unfold sorter_use in *. cbn [fst] in *.
+  assert (Hoof : sort_roots_lim (sort_fuel g + 2 * length (s_stack sorter_init)) g (s_marks sorter_init) (s_stack sorter_init) [] roots None <> UOutOfFuel).
+  { intros Ho. rewrite Ho in Hfull. destruct (sort g roots); [discriminate|destruct Hfull; discriminate|exact Hfull]. }
+  rewrite (roots_cut g _ roots _ _ [] k Hk Hoof). reflexivity.
+Qed.
+
+Lemma sorter_examples :
+  sorter_history sorter_init [[1]; [2]; [3]; []] [([0], Some 2); ([3], None); ([0], None)]
+  = [UStopped [3; 2]; UDone [3]; UDone [3; 2; 1; 0]]
+  /\ sorter_history sorter_init [[1]; [0]; []] [([0], None); ([2], None)] = [UPanic [] [0; 1] 0; UDone [2]].
+Proof. split; vm_compute; reflexivity. Qed.
